@@ -304,6 +304,7 @@ func c18units(tier string) []mc.Unit {
 			r.AddNontrivial(cnt)
 		}})
 	}
+	us = append(us, historyUnit("api-histories", codonMenu(), 2))
 	_ = math.Abs
 	return us
 }
